@@ -1,6 +1,7 @@
 package main
 
 import (
+	"os"
 	"fmt"
 	"go/token"
 	"go/types"
@@ -922,6 +923,44 @@ func (fc *fsCtx) ruleWriteAll(r *Report, root *ssa.Function, dataP *ssa.Paramete
 				}
 				return
 			}
+			// offset idiom: data[off:] with off a loop variable that starts at 0, advances by the count, and the
+			// loop is left only when off has reached len(data)
+			if sl, ok := buf.(*ssa.Slice); ok && isData(sl.X) && sl.High == nil {
+				if ph, ok := sl.Low.(*ssa.Phi); ok && len(ph.Edges) == 2 {
+					init, adv := false, false
+					for _, e := range ph.Edges {
+						if z, isC := constInt(e); isC && z == 0 {
+							init = true
+						}
+						if bo, ok := e.(*ssa.BinOp); ok && bo.Op == token.ADD && (bo.X == ssa.Value(ph) && bo.Y == cnt || bo.Y == ssa.Value(ph) && bo.X == cnt) {
+							adv = true
+						}
+					}
+					// where the write is not reached any more (after the loop): off >= len(data)
+					exitPts := after
+					if len(exitPts) == 0 {
+						p.instrs(g, func(b2 *ssa.BasicBlock, i2 int, in2 ssa.Instruction) {
+							if ret, ok := in2.(*ssa.Return); ok {
+								exitPts = append(exitPts, ret)
+							}
+						})
+					}
+					ko, kl := sk(ph), "len("+sk(sl.X)+")"
+					exit := len(exitPts) > 0
+					for _, a := range exitPts {
+						rs := p.RelsAt(rm, a)
+						if !(rs[kl+" <= "+ko] || rs[ko+" >= "+kl] || rs[eqRel(ko, kl)]) {
+							exit = false
+						}
+					}
+					if init && adv && exit {
+						okAll = true
+					} else {
+						why = fmt.Sprintf("write loop over an offset: starts at 0=%v, advances by the count=%v, leaves only when the offset has reached len(data)=%v", init, adv, exit)
+					}
+					return
+				}
+			}
 			if isData(buf) {
 				good := len(after) > 0
 				for _, a := range after {
@@ -1052,6 +1091,41 @@ func (fc *fsCtx) ruleAtomicCreateMem2(r *Report, mem *fsImpl) {
 				if !kd {
 					d := paramDeps(mu.Key)
 					kd = d[f.Params[1].Name()] && d[f.Params[2].Name()]
+				}
+				if !kd && g != f {
+					// the update sits in a helper: its key depends on the helper's parameters; what AtomicCreate
+					// passes for them decides
+					p.instrs(f, func(b2 *ssa.BasicBlock, i2 int, in2 ssa.Instruction) {
+						c, ok := in2.(*ssa.Call)
+						if !ok || calleeOf(&c.Call) != g {
+							return
+						}
+						up := map[string]bool{}
+						for _, o := range p.originsUp(mu.Key, region, roots) {
+							for hp := range paramDeps(o) {
+								for pi, pa := range g.Params {
+									if pa.Name() == hp && pi < len(c.Call.Args) {
+										for n := range paramDeps(c.Call.Args[pi]) {
+											up[n] = true
+										}
+									}
+								}
+							}
+						}
+						if up[f.Params[1].Name()] && up[f.Params[2].Name()] {
+							kd = true
+						}
+					})
+				}
+				if os.Getenv("VERIF_DEBUG") == "R13e" {
+					var ks, vs []string
+					for _, o := range p.originsUp(mu.Key, region, roots) {
+						ks = append(ks, sk(o)+fmt.Sprint(paramDeps(o)))
+					}
+					for _, o := range p.originsUp(mu.Value, region, roots) {
+						vs = append(vs, sk(o))
+					}
+					fmt.Println("R13e dbg fresh", fresh, "kd", kd, "keys", ks, "vals", vs, "params", f.Params[1].Name(), f.Params[2].Name())
 				}
 				r.Check("R13e", mem.Name+".AtomicCreate points (dir,fname) at the new inode", instrPos(in), fresh && kd,
 					"the directory entry for (dir, fname) must be set to the freshly allocated inode")
